@@ -357,10 +357,20 @@ def r05_7(ctx):
 def r05_9(ctx):
     """quote bytes are written only under need_quote"""
     prog = ctx.prog()
-    fns = [f for f in prog.fns.values() if f.crate == "sonic_rs" and f.kind != "Closure" and any(l.get("name") == "need_quote" for l in f.locals[1:f.argc + 1])]
+    # by role: format_string(value, dst, quote: bool) and every function that forwards its own bool parameter to it
+    fs = prog.find("util::string::format_string")
+    def quote_param(f):
+        bs = [i for i in range(1, f.argc + 1) if f.locals[i]["ty"] == "bool"]
+        return bs[0] if len(bs) == 1 else None
+    fns = [fs] if quote_param(fs) else []
+    for f in prog.fns.values():
+        if f.crate == "sonic_rs" and f.kind != "Closure" and f.id != fs.id and quote_param(f) is not None:
+            for b, t in f.calls():
+                if t.get("callee") == fs.id and op_local(t["args"][-1]) is not None and f.src(op_local(t["args"][-1])) == ("param", quote_param(f)):
+                    fns.append(f)
     ctx.floor("R05.9", "functions with a need_quote parameter", len(fns), 2)
     for f in fns:
-        nq = [i for i, l in enumerate(f.locals) if l.get("name") == "need_quote" and 1 <= i <= f.argc][0]
+        nq = quote_param(f)
         nq_l = forward_derived(f, {nq})
         deps = control_deps(f)
         # switches on need_quote
